@@ -350,6 +350,17 @@ def evaluate(pre_entries, inv, umask=0o022, ignore=None, clone_ok=False):
             mapped[tgt] = phys
     if dup_target:
         return Verdict("undefined", "two-sources-one-target", expect, mapped, selected, collisions, notes)
+    if fl.get("backup") in ("numbered", "auto"):
+        # a source whose mapped name is itself "<other mapped file>.~N~" enters (or briefly leaves, while it is being replaced) the
+        # backup name space of that other file during the very run that decides about its backups: whether and under which number
+        # the other file is backed up then depends on the order the two are copied in.  No version is lost either way; the model
+        # makes no claim about the destination for such an invocation
+        import re
+        files = [t_ for t_, sp in expect.items() if sp.get("k") == "f" and "same_as_pre" not in sp]
+        for a in files:
+            rx = re.compile(re.escape(a) + r"\.~\d+~")
+            if any(b != a and rx.fullmatch(b) for b in files):
+                return Verdict("undefined", "source-named-like-a-backup-of-another-source")
     # a mapped path whose parent chain passes through a mapped non-directory is undefined
     if fl.get("n") and collisions:
         mustfail = mustfail or "noclobber-collision"
